@@ -1,8 +1,10 @@
 (* C04 — the region hierarchy is self-consistent. *)
 From Coq Require Import ZArith List.
+Import ListNotations.
 From V Require Import Valid.Hier Valid.FlatRegion Valid.Wf Valid.Run.
 From Coq Require Import Lia.
 From V Require Import Model.Pipe Model.PipeBounded Model.PipeBounded4 Model.Graph Model.Edits Model.JoinPath.
+From V Require Model.Extract Model.ExtractPath Model.ExtractWf.
 
 Theorem C04_checker_sound : forall h, wf_check h = true -> WfHier h.
 Proof. exact wf_check_sound. Qed.
@@ -36,3 +38,38 @@ Theorem C04_closing_wellformed :
     Input g top fresh -> oentry (og g) = Some en -> join_returns g fresh 3 = Ok g' -> WfHier (ehier top g').
 Proof. exact join_returns_wf. Qed.
 Print Assumptions C04_closing_wellformed.
+
+(* region extraction, for ALL hierarchies (no bound), over Extract.extract (the line-by-line model of
+   extract_region, compared with the code on every call the pipeline makes): names stay unique; the new
+   region has the level that holds it as parent (recorded and actual), its header and exiting block lie
+   inside it, its targets are its exiting block's targets, the level lists it and the wrapped blocks
+   point to it *)
+Theorem C04_region_extraction_names_unique :
+  forall hd rname h lvl blocks entries ex rk h',
+    V.Model.Extract.extract h lvl blocks entries hd ex rk rname = V.Model.Extract.XOk h' ->
+    NoDup (names h) -> find h rname = None -> NoDup (names h').
+Proof. exact V.Model.ExtractWf.extract_names_unique. Qed.
+Print Assumptions C04_region_extraction_names_unique.
+
+Theorem C04_region_extraction_consistent :
+  forall hd rname h lvl blocks entries ex rk h',
+    rname <> hd ->
+    V.Model.Extract.extract h lvl blocks entries hd ex rk rname = V.Model.Extract.XOk h' ->
+    find h rname = None ->
+    (forall x n, find h x = Some n -> is_region n = false -> V.Model.ExtractPath.Good hd rname n) ->
+    (exists nl, find h lvl = Some nl /\ is_region nl = true) ->
+    In hd blocks -> In ex blocks -> ex <> lvl ->
+    exists nr nxe nl',
+      find h' rname = Some nr /\ n_parent nr = lvl /\
+      n_kind nr = KRegion rk hd ex (zsort blocks) lvl true /\
+      In hd (zsort blocks) /\ In ex (zsort blocks) /\
+      find h' ex = Some nxe /\ n_parent nxe = rname /\
+      n_jt nr = jump_targets nxe /\
+      find h' lvl = Some nl' /\ In rname (V.Model.ExtractPath.children nl') /\
+      (forall x n, In x blocks -> x <> lvl -> find h x = Some n ->
+         exists n', find h' x = Some n' /\ n_parent n' = rname).
+Proof.
+  intros hd rname h lvl blocks entries ex rk h' Hne Hx Hf HG Hl.
+  exact (V.Model.ExtractPath.region_consistent hd rname Hne h lvl blocks entries ex rk h' Hx Hf HG Hl).
+Qed.
+Print Assumptions C04_region_extraction_consistent.
